@@ -181,6 +181,33 @@ def task_unary(params, rec):
                 if bad.any():
                     i = int(numpy.flatnonzero(bad)[0])
                     rec.violation("is_power_of_two", dict(dtype=params["dtype"], x=x[i], got=bool(r[i]), expected=bool(ref[i] ^ inv), variant=variant, invert=inv), n=int(bad.sum()))
+        # the constants handed out by the package's own helper (only usable when tracing): trace, emit for NumPy, run on the same values
+        try:
+            import functional_algorithms as fa
+            from functional_algorithms import rewrite as fa_rewrite
+
+            def helper_route(ctx, v):
+                largest = ctx.constant("largest", v)
+                Qh, Ph = fpa.get_is_power_of_two_constants(ctx, largest)
+                return ctx.select(fpa.is_power_of_two(ctx, v, Qh, Ph), ctx.constant(1, v), ctx.constant(0, v))
+
+            with warnings.catch_warnings():
+                warnings.simplefilter("ignore")
+                tctx = fa.Context(paths=[fa.algorithms])
+                g = tctx.trace(helper_route, dt).rewrite(fa.targets.numpy, fa_rewrite)
+                fn = fa.targets.numpy.as_function(g, debug=0)
+                with numpy.errstate(all="ignore"):
+                    r = numpy.array([bool(fn(v)) for v in x[:20000]])
+            d_, ref_ = dom[:20000], ref[:20000]
+            bad = d_ & (r != ref_)
+            rec.count("evaluations", int(r.size))
+            rec.count("judged:is_power_of_two", int(d_.sum()))
+            rec.count("judged:is_power_of_two:helper-constants", int(d_.sum()))
+            if bad.any():
+                i = int(numpy.flatnonzero(bad)[0])
+                rec.violation("is_power_of_two", dict(dtype=params["dtype"], x=x[i], got=bool(r[i]), expected=bool(ref_[i]), variant="get_is_power_of_two_constants (traced)", invert=False), n=int(bad.sum()))
+        except Exception as e:
+            rec.violation("is_power_of_two-helper-exception", dict(dtype=params["dtype"], exc=f"{type(e).__name__}: {e}"[:300]))
         for a_, b_ in set(zip(ref[dom][:5000].tolist(), (numpy.abs(x[dom]) < fi.smallest_normal)[:5000].tolist())):
             rec.cls("is_power_of_two", params["dtype"], a_, b_)
     rec.sample(dict(kind="unary", dtype=params["dtype"], values=int(x.size), first=[x[0], x[x.size // 2]]))
